@@ -7,7 +7,7 @@ CASES_MODULE = "Cases.C15"
 AREA = "pool"
 ISOLATE = True          # task / coroutine queues of the crate are process-global: one history per process
 TIMEOUT_MS = 6000
-LEVEL = "partial"
+LEVEL = "proof"
 SHRINK_KEY = "ops"
 SHARD_SIZE = 12
 term = poolcases.term
